@@ -200,7 +200,7 @@ def _run(ctx):
     rng = ctx.rng('c04')
 
     # --- 1. pad / crop / round trip over per-axis cells -------------------------------------------
-    N = ctx.pick(12, 40)
+    N = ctx.pick(16, 64)
     cells = [(i, o) for i in range(1, N + 1) for o in range(i, N + 1)]
     modes = ['constant', 'edge', 'reflect', 'symmetric', 'wrap']
     fills = [0, 1, -3.5, float('nan')]
@@ -257,6 +257,16 @@ def _run(ctx):
                         'the origin sample of the input is not at the origin of the cropped array', desc)
             if i0 == i1:
                 fttools.crop_center(b, int(i0)) if o0 >= i0 and o1 >= i0 else None
+    # a few large, random shapes (sampled, not enumerated)
+    for _ in range(ctx.share(ctx.pick(40, 600))):
+        i0, i1 = (int(v) for v in rng.integers(1, ctx.pick(200, 1200), 2))
+        o0, o1 = i0 + int(rng.integers(0, 300)), i1 + int(rng.integers(0, 300))
+        desc = {'wl': 'pad-crop-large', 'in': (i0, i1), 'out': (o0, o1), 'class': f'padL:{cell_class(i0, o0)},{cell_class(i1, o1)}'}
+        ctx.case(desc)
+        a = rng.standard_normal((i0, i1))
+        with ctx.guard('C04/pad2d', desc):
+            pz = fttools.pad2d(a, out_shape=(o0, o1))
+            ctx.equal('roundtrip.crop(pad)', fttools.crop_center(pz, (i0, i1)), a, 'C04/roundtrip/crop(pad(x))!=x', 'crop_center(pad2d(x)) != x', desc)
     if full:
         ctx.note('pad_crop_cells', f'all per-axis (in,out) cells with 1<=in<=out<={N}, all pairs of cells (axis0 x axis1)')
 
